@@ -68,15 +68,48 @@ def comps(path):
     return [list(c.encode("utf-8")) for c in path.strip("/").split("/")]
 
 
-def node(path, kind, content=b"", target=b"", mt=(1600000000, 0), mode=None, u="root", g="root"):
+def node(path, kind, content=b"", target=b"", mt=(1600000000, 0), mode=None, u="root", g="root", cg=None):
     if mode is None:
         mode = {"File": 0o644, "Dir": 0o755, "Symlink": 0o777}[kind]
     if isinstance(content, str):
         content = content.encode()
     if isinstance(target, str):
         target = target.encode()
-    return {"p": comps(path), "k": kind, "c": list(content), "t": list(target), "mt": list(mt),
-            "mode": mode, "u": u, "g": g}
+    d = {"p": comps(path), "k": kind, "c": list(content), "t": list(target), "mt": list(mt),
+         "mode": mode, "u": u, "g": g}
+    if cg:
+        # content given as pieces [kind, n, x]: "z" zeros, "b" n bytes of value x, "r" n random bytes (seed x)
+        d["cg"] = [list(x) for x in cg]
+    return d
+
+
+BIG_SIZES = [100, 4095, 4096, 4097, 8192, 10000, 16384, 20000, 65536, 100000, 204800, 300001]
+
+
+def big_content(rng):
+    """Pieces of a large content: zeros, runs of one byte, random bytes, in the arrangements where
+    a program may treat a region specially (all zeros; zero tail; zero head; zero run in the middle)."""
+    n = rng.choice(BIG_SIZES)
+    m = rng.choice(BIG_SIZES)
+    s = rng.randrange(1, 1000)
+    return rng.choice([
+        [["z", n, 0]], [["r", n, s]], [["r", n, s], ["z", m, 0]], [["z", n, 0], ["r", m, s]],
+        [["r", n, s], ["z", m, 0], ["r", 17, s + 1]], [["b", n, 255]], [["b", n, 32], ["z", m, 0]],
+        [["r", 3, s], ["z", m, 0]], [["z", m, 0], ["b", 1, 1]], [["r", n, s], ["r", m, s]]])
+
+
+def big_tree(rng, nfiles=None):
+    t = [node("/", "Dir"), node("/d", "Dir")]
+    for i in range(nfiles or rng.randrange(2, 7)):
+        p = rng.choice(["/", "/d/"]) + "f%02d" % i
+        t.append(node(p, "File", cg=big_content(rng), mt=(1600000000 + i, rng.choice([0, 7]))))
+    if rng.random() < 0.5:
+        t.append(node("/tiny", "File", b"x"))
+    return t
+
+
+BIG_SETTINGS = [{"H": 1000, "M": 1 << 20, "S": 100000}, {"H": 1000, "M": 16384, "S": 1000}, {"H": 3, "M": 4096, "S": 0},
+                {"H": 1000, "M": 65536, "S": 10000}, {"H": 1000, "M": 8192, "S": 8192}, {"H": 2, "M": 20000, "S": 300001}]
 
 
 def path_str(p):
